@@ -46,7 +46,8 @@ func init() {
 			"traffic: seeded documents assembled from pools of legal-but-unusual features (content-defined parameters and headers, bounds flags without bounds, multipleOf 0, " +
 			"uncompilable-looking patterns, discriminators, deepObject, recursive components, path items without operations, trailing-slash and templated servers) × " +
 			"byte-level requests/responses (any method, verbatim-template and mutated paths, hostile queries, content types and bodies) through both routers, " +
-			"ValidateRequest, ConvertErrors/ValidationErrorEncoder, ValidateResponse, Middleware; non-trivial = the model reports ≥1 feature/branch",
+			"ValidateRequest (every registered body decoder incl. YAML with non-string keys / non-finite floats, zip, csv, multipart with YAML parts; NaN/Inf parameter texts; deepObject array indexes), " +
+			"error text / ConvertErrors / ValidationErrorEncoder+DefaultErrorEncoder, ValidateResponse, Validator.Middleware, ValidationHandler (file-loaded); non-trivial = the model reports ≥1 feature/branch",
 		Exhaustive: true,
 		Gen:        genC10,
 		Run:        runC10,
@@ -58,7 +59,7 @@ func init() {
 		Assumptions: []string{
 			"inputs are well-formed Go values of the API's types (http.NewRequest succeeds); only document content and traffic are hostile",
 			"documents that fail to load or validate are outside the property (observed as invalid-doc, counted, never compared)",
-			"security requirements are not generated (authentication callbacks are user code; C07 owns that part)",
+			"authentication callbacks are user code: only nil, NoopAuthenticationFunc and a function that returns AuthenticationInput.NewError are used",
 			"strings are ASCII",
 		},
 	})
@@ -509,8 +510,19 @@ func c10Yaml(n any) string {
 
 var c10ZipOnce sync.Once
 
+func c10Auth(o map[string]any) openapi3filter.AuthenticationFunc {
+	switch jstr(o, "auth") {
+	case "noop":
+		return openapi3filter.NoopAuthenticationFunc
+	case "deny":
+		return func(_ context.Context, in *openapi3filter.AuthenticationInput) error { return in.NewError(fmt.Errorf("denied")) }
+	}
+	return nil
+}
+
 func c10Options(o map[string]any) *openapi3filter.Options {
 	return &openapi3filter.Options{
+		AuthenticationFunc:          c10Auth(o),
 		MultiError:                  jbool(o, "multi"),
 		ExcludeRequestBody:          jbool(o, "exReqBody"),
 		ExcludeRequestQueryParams:   jbool(o, "exQuery"),
@@ -707,6 +719,36 @@ func c10RunTraffic(c hx.Case) any {
 			})
 		}
 	}
+	// the library's other middleware: ValidationHandler (loads the document from a file, legacy router, default
+	// error encoder = DefaultErrorEncoder, which writes err.Error())
+	if jbool(om, "vhandler") {
+		if req3, err := c10Request(rq); err == nil {
+			st.guard("vhandler", func() {
+				dir, err := os.MkdirTemp("", "c10vh")
+				if err != nil {
+					return
+				}
+				defer os.RemoveAll(dir)
+				file := dir + "/doc.json"
+				if os.WriteFile(file, b, 0o600) != nil {
+					return
+				}
+				vh := &openapi3filter.ValidationHandler{File: file, AuthenticationFunc: c10Auth(om),
+					Handler: http.HandlerFunc(func(w http.ResponseWriter, r *http.Request) { w.WriteHeader(204) })}
+				if vh.Load() != nil {
+					out["vh"] = "load-err"
+					return
+				}
+				w := httptest.NewRecorder()
+				if jbool(om, "strict") {
+					vh.Middleware(http.HandlerFunc(func(w http.ResponseWriter, r *http.Request) {})).ServeHTTP(w, req3)
+				} else {
+					vh.ServeHTTP(w, req3)
+				}
+				out["vh"] = "done"
+			})
+		}
+	}
 	return out
 }
 
@@ -846,9 +888,9 @@ func c10PanicsAllowed(im map[string]any, unprintable, copyPanic bool) bool {
 		stage, msg, site := jstr(m, "stage"), jstr(m, "msg"), jstr(m, "site")
 		switch {
 		case unprintable && strings.HasPrefix(msg, "json: unsupported ") && strings.Contains(site, "SchemaError).Error") &&
-			(stage == "errtext" || stage == "encode" || stage == "resp-errtext" || stage == "resp-convert" || stage == "middleware"):
+			(stage == "errtext" || stage == "encode" || stage == "resp-errtext" || stage == "resp-convert" || stage == "middleware" || stage == "vhandler"):
 		case copyPanic && strings.HasPrefix(msg, "reflect: call of reflect.Value.") && strings.Contains(site, "visitXOFOperations") &&
-			(stage == "request" || stage == "response" || stage == "middleware"):
+			(stage == "request" || stage == "response" || stage == "middleware" || stage == "vhandler"):
 		default:
 			return false
 		}
@@ -1246,6 +1288,15 @@ func c10Doc(r *hx.Rng) (map[string]any, []string) {
 			`{"type":"object","properties":{"next":{"nullable":true,"allOf":[{"$ref":"#/components/schemas/Loop"}]}}}`}))
 	}
 	doc["components"] = map[string]any{"schemas": comps}
+	if r.Chance(12) {
+		// security requirements: declared or not, global (operation-level ones are added in c10Operation's caller)
+		if r.Chance(75) {
+			doc["components"].(map[string]any)["securitySchemes"] = map[string]any{
+				"k": map[string]any{"type": "apiKey", "in": "header", "name": "X-K"},
+				"b": map[string]any{"type": "http", "scheme": "bearer"}}
+		}
+		doc["security"] = c10J(hx.Pick(r, []string{`[{"k":[]}]`, `[{"k":[],"b":["s"]}]`, `[{}]`, `[{"k":[]},{"b":[]}]`, `[]`}))
+	}
 	if r.Chance(55) {
 		var servers []any
 		for i := 1 + r.Intn(2); i > 0; i-- {
@@ -1421,7 +1472,8 @@ func c10RandTraffic(r *hx.Rng) hx.Case {
 	}
 	resp := map[string]any{"status": hx.Pick(r, []int{200, 200, 201, 404, 500, 0, 99, 600, -1, 304, 1000}), "headers": rh, "ct": hx.Pick(r, c10CTs), "body": hx.Pick(r, c10Bodies)}
 	opts := map[string]any{"multi": r.Bool(), "exReqBody": r.Chance(10), "exQuery": r.Chance(10), "exRespBody": r.Chance(10), "inclStatus": r.Chance(30),
-		"skipDefaults": r.Chance(20), "exRO": r.Chance(10), "exWO": r.Chance(10), "middleware": r.Chance(30), "strict": r.Bool()}
+		"skipDefaults": r.Chance(20), "exRO": r.Chance(10), "exWO": r.Chance(10), "middleware": r.Chance(30), "strict": r.Bool(),
+		"vhandler": r.Chance(15), "auth": hx.Pick(r, []string{"", "noop", "noop", "deny"})}
 	// focused exchanges: a body decoder other than JSON gets a body it can decode, under a schema that walks it
 	if ops := c10DeclaredOps(doc, tpl); len(ops) > 0 {
 		switch k := r.Intn(100); {
